@@ -1273,7 +1273,7 @@ func (m *NetworkMachine) BindHandlers(handlers any,
 
 // DetachHandlers is deprecated, use [Api.HandlersDetach].
 func (m *NetworkMachine) DetachHandlers(bindingId string) error {
-	return m.DetachHandlers(bindingId)
+	return m.HandlersDetach(bindingId)
 }
 
 // TracerBind is [am.Machine.TracerBind].
